@@ -21,7 +21,7 @@ def items():
     return out
 
 def main():
-    want = sys.argv[1:]
+    want = [a for a in sys.argv[1:] if not a.startswith("--")]
     results = []
     for name, patch, props in items():
         if want and not any(w in name for w in want):
@@ -35,6 +35,13 @@ def main():
             if r.returncode != 0:
                 results.append((name, props, "PATCH-DOES-NOT-APPLY", r.stderr.strip()[:200]))
                 continue
+            tests = ""
+            if "--tests" in sys.argv:
+                t = subprocess.run(["make", "-C", os.path.join(scratch, "libscpi"), "clean", "test"], stdout=subprocess.PIPE, stderr=subprocess.STDOUT, text=True, errors="replace")
+                failed = sum(int(x) for x in re.findall(r"^\s+tests\s+\d+\s+\d+\s+\d+\s+(\d+)", t.stdout, re.M))
+                ran = sum(int(x) for x in re.findall(r"^\s+tests\s+\d+\s+(\d+)", t.stdout, re.M))
+                tests = "tests:%d/%d-failed " % (failed, ran) if ran == 71 else "tests:BUILD-OR-RUN-FAILED "
+                subprocess.run(["make", "-C", os.path.join(scratch, "libscpi"), "clean"], stdout=subprocess.DEVNULL, stderr=subprocess.DEVNULL)
             env = dict(os.environ)
             env["SCPI_REPO"] = scratch
             env.setdefault("VERIF_SCALE", "1")
@@ -44,7 +51,7 @@ def main():
                 caught = p.returncode == 1 and "VIOLATION property=%s" % prop in p.stdout
                 rules = sorted(set(re.findall(r"violation rule=(\S+)", p.stderr)))
                 verdicts.append("%s:%s%s" % (prop, "CAUGHT" if caught else ("MISSED(exit %d)" % p.returncode), (" " + ",".join(rules)) if rules else ""))
-            results.append((name, props, " ".join(verdicts), ""))
+            results.append((name, props, tests + " ".join(verdicts), ""))
         finally:
             subprocess.run(["git", "-C", "/repo", "worktree", "remove", "--force", scratch], stdout=subprocess.DEVNULL, stderr=subprocess.DEVNULL)
             shutil.rmtree(scratch, ignore_errors=True)
